@@ -91,7 +91,8 @@ class Lock:
 # which translators regenerate files that a property's Coq development depends on
 TRANSLATORS_FOR = {
     "C18": ["translate_serde_shapes.py"], "C20": ["translate_hash_iter.py"],
-    "C12": ["translate_libm.py"], "C06": ["translate_libm.py"], "C07": ["translate_libm.py"],
+    "C12": ["translate_libm.py", "translate_rust_kernels.py"], "C06": ["translate_libm.py", "translate_rust_kernels.py"], "C07": ["translate_libm.py", "translate_rust_kernels.py"],
+    "C13": ["translate_rust_kernels.py"], "C15": ["translate_rust_kernels.py"],
     "C04": ["translate_unicode.py", "translate_lef_keys.py"], "C05": ["translate_unicode.py", "translate_lef_keys.py"],
     "C11": ["translate_unicode.py", "translate_lef_keys.py"],
     "C01": ["translate_gds_tables.py"], "C02": ["translate_gds_tables.py"], "C03": ["translate_gds_tables.py"], "C10": ["translate_gds_tables.py"],
